@@ -142,7 +142,7 @@ def asgRecv (a b : Ty) : Bool :=
        | .array e' r' => Rng.pos.sub r' && (decide (r'.hi ≤ 0) || asg .richData e')
        | .tuple ts' g' => Rng.pos.sub (tupleSize ts' g') &&
            (if (tupleSize ts' g').hi ≤ 0 then true else if ts'.isEmpty then asg .richData .any else asgAllR .richData ts')
-       | .hash k' v' r' => Rng.pos.sub r' && (decide (r'.hi ≤ 0) || (asgAnyL [.str, .numeric] k' && asg .richData v'))
+       | .hash k' v' r' => Rng.pos.sub r' && (decide (r'.hi ≤ 0) || (asg (.variant [.str, .numeric]) k' && asg .richData v'))
        | .struct ms' => Rng.pos.sub (structSize ms') && asgMembersRichKey ms'
        | _ => false)
   | .str => isStringFamily b
@@ -219,9 +219,9 @@ def asgRecv (a b : Ty) : Bool :=
   | .sensitive x => (match b with | .sensitive y => asg x y | _ => false)
   | .iterable x =>
       (match b with
-       | .array e' _ => asg x e'
+       | .array e' r' => decide (r'.hi ≤ 0) || asg x e'
        | .bin => asg x (.int ⟨0, 255⟩)
-       | .hash k' v' _ => asg x (.tuple [k', v'] none)
+       | .hash k' v' r' => decide (r'.hi ≤ 0) || asg x (.tuple [k', v'] none)
        | .str | .strVal _ | .strSz _ => asg x (.strSz ⟨1, 1⟩)
        | .tuple ts' g' =>
            (if (tupleSize ts' g').hi ≤ 0 then true else if ts'.isEmpty then asg x .any else asgAllR x ts')
